@@ -8,6 +8,10 @@ import sys, os, shutil, subprocess, tempfile, time
 args = [a for a in sys.argv[1:] if not a.startswith('--')]
 flags = [a for a in sys.argv[1:] if a.startswith('--')]
 patch = None
+demo = None
+if '--demo' in sys.argv:
+    demo = sys.argv[sys.argv.index('--demo') + 1]
+    args = [a for a in args if a != demo]
 if '--patch' in sys.argv:
     patch = sys.argv[sys.argv.index('--patch') + 1]
     args = [a for a in args if a != patch]
@@ -19,8 +23,14 @@ try:
     subprocess.check_call(['git', '-C', '/repo', 'worktree', 'add', '--detach', '-f', d + '/r', 'HEAD'], stdout=subprocess.DEVNULL, stderr=subprocess.DEVNULL)
     r = d + '/r'
     # carry over uncommitted working-tree state of /repo? no: mutants are relative to HEAD
+    if demo:
+        c = subprocess.run(['/venv/bin/python', os.path.abspath(demo)], env=dict(os.environ, PPGM_REPO=r, PYTHONPATH=r + '/src'), capture_output=True, text=True, cwd=r)
+        print('MUT: demo on clean tree rc=%d' % c.returncode)
     if patch:
-        subprocess.check_call(['git', '-C', r, 'apply', os.path.abspath(patch)])
+        subprocess.check_call(['git', '-C', r, 'apply', '--3way', os.path.abspath(patch)])
+    if demo:
+        c = subprocess.run(['/venv/bin/python', os.path.abspath(demo)], env=dict(os.environ, PPGM_REPO=r, PYTHONPATH=r + '/src'), capture_output=True, text=True, cwd=r)
+        print('MUT: demo on patched tree rc=%d: %s' % (c.returncode, (c.stdout.strip().splitlines() or [''])[-1][:200]))
     else:
         p = os.path.join(r, rel)
         s = open(p).read()
@@ -30,7 +40,7 @@ try:
         open(p, 'w').write(s.replace(old, new))
     if '--no-tests' not in flags:
         env = dict(os.environ, PYTHONPATH=r + '/src', PYTHONHASHSEED='0')
-        t = subprocess.run(['/venv/bin/python', '-m', 'pytest', '-q', '-p', 'no:cacheprovider', '-x', '--timeout=900', 'test'], cwd=r, env=env, capture_output=True, text=True)
+        t = subprocess.run(['/venv/bin/python', '-m', 'pytest', '-q', '-p', 'no:cacheprovider', '--timeout=900', 'test'], cwd=r, env=env, capture_output=True, text=True)
         print('MUT: baseline suite:', t.stdout.strip().splitlines()[-1] if t.stdout.strip() else t.stderr[-300:])
     for i in ids:
         t0 = time.time()
